@@ -131,6 +131,36 @@ section order
 variable [LinearOrder F] [IsStrictOrderedRing F] [Cmp F] [LawfulCmp F] [ToUsize F] [LawfulToUsize F]
   [RemEuclid F]
 
+/-- evaluation at a point: the value of the cubic piece of its bracketing interval -/
+theorem splineEvalAt_eq (xs ys ks : List F) (x : F) (extr : Extrapolate)
+    (hs : StrictInc xs) (hy : ys.length = xs.length) (hk : ks.length = xs.length)
+    (hlen : xs.length < 2 ^ 64) :
+    ∃ i, ∃ (hb : Bracket xs x i),
+      splineEvalAt (V := F) (splineOf xs ys ks extr) xs ys x =
+        .ok ((pieceAt xs ys ks i hb.lt_len hy hk).eval x) := by
+  obtain ⟨i, hi, hb⟩ := C11_exact xs x hs hlen
+  refine ⟨i, hb, ?_⟩
+  have hlt := hb.lt_len
+  have hd : xs[i + 1] - xs[i] ≠ 0 := ne_of_gt (sub_pos.mpr (hs.2 i (i + 1) (by omega) hlt))
+  have hc := coeffs_get xs ys ks hy hk i hlt
+  have ha : rd ((coeffs xs ys ks).map (·.1)) i = .ok (ks[i] * (xs[i + 1] - xs[i]) - (ys[i + 1] - ys[i])) := by
+    simp [rd, List.getElem?_map, hc]
+  have hbb : rd ((coeffs xs ys ks).map (·.2)) i = .ok ((ys[i + 1] - ys[i]) - ks[i + 1] * (xs[i + 1] - xs[i])) := by
+    simp [rd, List.getElem?_map, hc]
+  have key : (1 - (x - xs[i]) / (xs[i + 1] - xs[i])) * ys[i] + (x - xs[i]) / (xs[i + 1] - xs[i]) * ys[i + 1] +
+      (x - xs[i]) / (xs[i + 1] - xs[i]) * (1 - (x - xs[i]) / (xs[i + 1] - xs[i])) *
+        ((ks[i] * (xs[i + 1] - xs[i]) - (ys[i + 1] - ys[i])) * (1 - (x - xs[i]) / (xs[i + 1] - xs[i])) +
+          (ys[i + 1] - ys[i] - ks[i + 1] * (xs[i + 1] - xs[i])) * ((x - xs[i]) / (xs[i + 1] - xs[i]))) =
+      (pieceAt xs ys ks i hlt hy hk).eval x := by
+    simp only [pieceAt]
+    rw [← hermite_eq_cubic _ _ _ _ _ _ _ hd]
+    simp [hermite]
+  unfold splineEvalAt
+  simp only [splineOf, bind, Except.bind, pure, Except.pure, hi, rd_eq xs i (by omega),
+    rd_eq xs (i + 1) hlt, rd_eq ys i (by omega), rd_eq ys (i + 1) (by omega), ha, hbb]
+  simp
+  exact key
+
 /-- **normal form of `CubicSplineStrategy::interp_into`** (modes `No` / `Yes`): the value of the
     cubic piece of the bracketing interval, or `OutOfBounds`. -/
 theorem splineInterp_eq (xs ys ks : List F) (q : F) (extr : Extrapolate) (hne : extr ≠ .periodic)
@@ -140,39 +170,22 @@ theorem splineInterp_eq (xs ys ks : List F) (q : F) (extr : Extrapolate) (hne : 
       splineInterp (V := F) (splineOf xs ys ks extr) xs ys q =
         if extr = .yes ∨ InRange xs q then .ok ((pieceAt xs ys ks i hb.lt_len hy hk).eval q)
         else .error .outOfBounds := by
-  obtain ⟨i, hi, hb⟩ := C11_exact xs q hs hlen
+  obtain ⟨i, hb, he⟩ := splineEvalAt_eq xs ys ks q extr hs hy hk hlen
   have h0 : 0 < xs.length := by have := hs.1; omega
   refine ⟨i, hb, ?_⟩
-  have hlt := hb.lt_len
-  have hd : xs[i + 1] - xs[i] ≠ 0 := ne_of_gt (sub_pos.mpr (hs.2 i (i + 1) (by omega) hlt))
-  have hc := coeffs_get xs ys ks hy hk i hlt
-  have ha : rd ((coeffs xs ys ks).map (·.1)) i = .ok (ks[i] * (xs[i + 1] - xs[i]) - (ys[i + 1] - ys[i])) := by
-    simp [rd, List.getElem?_map, hc]
-  have hbb : rd ((coeffs xs ys ks).map (·.2)) i = .ok ((ys[i + 1] - ys[i]) - ks[i + 1] * (xs[i + 1] - xs[i])) := by
-    simp [rd, List.getElem?_map, hc]
   unfold splineInterp
   rw [isInRange_eq xs q h0]
-  have key : (1 - (q - xs[i]) / (xs[i + 1] - xs[i])) * ys[i] + (q - xs[i]) / (xs[i + 1] - xs[i]) * ys[i + 1] +
-      (q - xs[i]) / (xs[i + 1] - xs[i]) * (1 - (q - xs[i]) / (xs[i + 1] - xs[i])) *
-        ((ks[i] * (xs[i + 1] - xs[i]) - (ys[i + 1] - ys[i])) * (1 - (q - xs[i]) / (xs[i + 1] - xs[i])) +
-          (ys[i + 1] - ys[i] - ks[i + 1] * (xs[i + 1] - xs[i])) * ((q - xs[i]) / (xs[i + 1] - xs[i]))) =
-      (pieceAt xs ys ks i hlt hy hk).eval q := by
-    simp only [pieceAt]
-    rw [← hermite_eq_cubic _ _ _ _ _ _ _ hd]
-    simp [hermite]
   cases extr with
   | periodic => exact absurd rfl hne
   | yes =>
-    simp only [splineOf, bind, Except.bind, pure, Except.pure, hi, rd_eq xs i (by omega),
-      rd_eq xs (i + 1) hlt, rd_eq ys i (by omega), rd_eq ys (i + 1) (by omega), ha, hbb]
-    simp
-    exact key
+    have hw : ∀ b, splineWrap Extrapolate.yes b xs q = .ok q := by intro b; simp [splineWrap]; rfl
+    simp only [splineOf, bind, Except.bind, pure, Except.pure, hw] at he ⊢
+    simp [he]
   | no =>
+    have hw : ∀ b, splineWrap Extrapolate.no b xs q = .ok q := by intro b; simp [splineWrap]; rfl
     by_cases hin : InRange xs q
-    · simp only [splineOf, bind, Except.bind, pure, Except.pure, hi, rd_eq xs i (by omega),
-        rd_eq xs (i + 1) hlt, rd_eq ys i (by omega), rd_eq ys (i + 1) (by omega), ha, hbb]
-      simp [hin]
-      exact key
+    · simp only [splineOf, bind, Except.bind, pure, Except.pure, hw] at he ⊢
+      simp [he, hin]
     · simp [splineOf, bind, Except.bind, hin, throw, throwThe, MonadExceptOf.throw]
 
 end order
